@@ -162,7 +162,8 @@ def c05_instances(tier):
           mm_inst([2, 3], False, [3, 2], False, [1, 2]), mm_inst([2, 3], False, [3, 2], False, [1])]
     # leading dimensions: equal, lower-rank operand, unit leading dims
     I += [mm_inst([2, 2, 1], False, [2, 1, 2], False), mm_inst([2, 1, 2], False, [2, 1], False),
-          mm_inst([1, 2], False, [2, 2, 1], False), mm_inst([2, 1, 2], False, [1, 2, 1], False)]
+          mm_inst([1, 2], False, [2, 2, 1], False), mm_inst([2, 1, 2], False, [1, 2, 1], False),
+          mm_inst([1, 2, 1], False, [2, 1, 2], False)]
     # mismatching inner dimension is refused
     I += [mm_inst([2, 3], False, [2, 2], False), mm_inst([2, 3], True, [3, 2], False)]
     # rank-1 forms
@@ -291,7 +292,7 @@ def c01_instances(tier):
          gi("shared", GRAPHS["shared"], tracked=[True, False]), gi("user_chain", GRAPHS["user_chain"]),
          multiuse_inst([2, 2], [2], 4)]
     if tier == "thorough":
-        I += [multiuse_inst([2, 3], [3], 4), multiuse_inst([2, 3], [3], 3), multiuse_inst([2, 2], [2, 1], 4), multiuse_inst([2, 2], [1], 4, passes=2)]
+        I += [multiuse_inst([2, 3], [3], 4), multiuse_inst([2, 3], [3], 3), multiuse_inst([2, 2], [2, 1], 4), multiuse_inst([2], [1], 4, passes=2)]
         seed = int(os.environ.get("VERIF_SEED", "0") or 0)
         for tag, nodes in GRAPHS.items():
             I.append(gi(tag, nodes))
